@@ -9,6 +9,7 @@ import (
 	"os"
 	"regexp"
 	"runtime"
+	"runtime/debug"
 	"sort"
 	"strings"
 
@@ -360,8 +361,17 @@ func duplexHandler(specFor func(r *http.Request) duplexSpec) http.Handler {
 		var wg sync.WaitGroup
 		wg.Add(2)
 		var readErr error
+		// a panic on one of the handler's own goroutines would end the process; it is carried over to
+		// the goroutine ServeHTTP runs on, where the caller records it
+		var carried atomic.Value
+		carry := func() {
+			if p := recover(); p != nil {
+				carried.CompareAndSwap(nil, fmt.Sprintf("%v (on a goroutine of the handler)\n%s", p, trimStack(string(debug.Stack()))))
+			}
+		}
 		go func() {
 			defer wg.Done()
+			defer carry()
 			var hdr [5]byte
 			for {
 				if _, err := io.ReadFull(r.Body, hdr[:]); err != nil {
@@ -390,6 +400,7 @@ func duplexHandler(specFor func(r *http.Request) duplexSpec) http.Handler {
 		fl, _ := w.(http.Flusher)
 		go func() {
 			defer wg.Done()
+			defer carry()
 			for i := 0; i < d.NResp; i++ {
 				p := duplexPayload(d.BackendCodec, d.PayloadLen, 1000+i)
 				if _, err := w.Write(appendFrame(nil, 0, p)); err != nil {
@@ -405,6 +416,9 @@ func duplexHandler(specFor func(r *http.Request) duplexSpec) http.Handler {
 			}
 		}()
 		wg.Wait()
+		if p := carried.Load(); p != nil {
+			panic(p)
+		}
 		code := "0"
 		if readErr != nil {
 			code = "13"
